@@ -173,6 +173,20 @@ func Build(v sb.V) interface{} {
 	case "embedder":
 		return Embedder{buildPerson(v), "extra"}
 	}
+	if strings.HasPrefix(k, "int64x:") {
+		n, _ := strconv.ParseInt(v.S, 10, 64)
+		if k == "int64x:int" {
+			return int(n)
+		}
+		return n
+	}
+	if strings.HasPrefix(k, "uint64x:") {
+		n, _ := strconv.ParseUint(v.S, 10, 64)
+		if k == "uint64x:uint" {
+			return uint(n)
+		}
+		return n
+	}
 	if strings.HasPrefix(k, "nilptr:") {
 		switch k[7:] {
 		case "person":
